@@ -22,6 +22,9 @@ func Start(info round.Info, pl *pool.Pool, c *config.Config) protocol.StartFunc 
 		if c == nil {
 			helper, err = round.NewSession(info, sessionID, pl)
 		} else {
+			if err = c.ValidateBasic(); err != nil {
+				return nil, fmt.Errorf("keygen: %w", err)
+			}
 			helper, err = round.NewSession(info, sessionID, pl, c)
 		}
 		if err != nil {
